@@ -1980,7 +1980,9 @@ impl GlobalInferenceCtx<'_> {
                                             continue;
                                         }
 
-                                        let Ty::Enum { ref variants, .. } = *scrutinee_ty else {
+                                        // the scrutinee might be a `distinct` enum
+                                        let Ty::Enum { variants, .. } = scrutinee_ty.absolute_ty()
+                                        else {
                                             unreachable!();
                                         };
 
@@ -2042,15 +2044,16 @@ impl GlobalInferenceCtx<'_> {
                                 }
                             }
 
-                            let mut variants: Vec<VariantToCheck> = match *scrutinee_ty {
+                            // the scrutinee might be a `distinct` sum type
+                            let mut variants: Vec<VariantToCheck> = match scrutinee_ty.absolute_ty() {
                                 Ty::Optional { sub_ty } => {
-                                    vec![sub_ty.into(), Intern::new(Ty::Nil).into()]
+                                    vec![(*sub_ty).into(), Intern::new(Ty::Nil).into()]
                                 }
                                 Ty::ErrorUnion {
                                     error_ty,
                                     payload_ty,
-                                } => vec![error_ty.into(), payload_ty.into()],
-                                Ty::Enum { ref variants, .. } => {
+                                } => vec![(*error_ty).into(), (*payload_ty).into()],
+                                Ty::Enum { variants, .. } => {
                                     variants.iter().map(|v| (*v).into()).collect_vec()
                                 }
                                 _ => unreachable!(),
@@ -2195,7 +2198,7 @@ impl GlobalInferenceCtx<'_> {
 
                             let variant_ty = match this_variant {
                                 ArmVariant::Shorthand(name) => {
-                                    let Ty::Enum { variants, .. } = scrutinee_ty.as_ref() else {
+                                    let Ty::Enum { variants, .. } = scrutinee_ty.absolute_ty() else {
                                         // an error will be reported so we don't have to do
                                         // anything here
                                         break 'switch_arg Ty::Unknown.into();
